@@ -151,12 +151,17 @@ impl<'a> It<'a> {
 }
 
 /// One walk with deletion set `dset` (ids). Returns Err(class, detail) on a violation.
-pub fn walk(x: &[u8], kind: Kind, dset: &[u32]) -> Result<(u64, u64), (String, String)> {
+pub fn walk(x: &[u8], kind: Kind, dset: &[u32], warm: bool) -> Result<(u64, u64), (String, String)> {
     let before = refparse(x, RELAXED).map_err(|_| ("harness".to_string(), "start not well-formed".to_string()))?;
     let all = ids_of(&before.msg, kind);
     let n = all.len() as u64;
     let bound = 2 * n + dset.len() as u64 * n + 4;
     let mut pp = DNSSector::new(x.to_vec()).unwrap().parse().map_err(|e| ("harness".to_string(), format!("start rejected: {}", e)))?;
+    if warm {
+        // a packet that was already edited once (pointer-free, question memoised), as in a real hook chain
+        pp.recompute().map_err(|e| ("harness".to_string(), format!("recompute failed: {}", e)))?;
+        let _ = pp.question_raw0();
+    }
     let mut deleted: Vec<u32> = vec![];
     let mut seen: Vec<u32> = vec![];
     let mut yields = 0u64;
@@ -252,14 +257,25 @@ pub fn walk(x: &[u8], kind: Kind, dset: &[u32]) -> Result<(u64, u64), (String, S
     if pp.offset_question != d.layout.question.first().map(|q| q.off) {
         return Err(("section-offset-wrong".into(), format!("question: object says {:?}", pp.offset_question)));
     }
+    // an emptied question section reads as absent through every getter (and a surviving one reads as itself)
+    let want_q = d.msg.question.first().map(|q| (q.qtype, q.qclass));
+    if pp.qtype_qclass() != want_q || pp.question().map(|(_, t, c)| (t, c)) != want_q || pp.question_raw0().map(|(_, t, c)| (t, c)) != want_q {
+        return Err(("question-getters-disagree-with-section".into(), format!("the packet holds question {:?} but the getters say {:?}", want_q, pp.qtype_qclass())));
+    }
     Ok((yields, second_deletes))
 }
 
 fn one(ctx: &mut Ctx, x: &[u8], kind: Kind, dset: &[u32], desc: &str) {
+    one_w(ctx, x, kind, dset, desc, false);
+    one_w(ctx, x, kind, dset, desc, true);
+}
+
+fn one_w(ctx: &mut Ctx, x: &[u8], kind: Kind, dset: &[u32], desc: &str, warm: bool) {
     ctx.evaluations += 1;
     let xv = x.to_vec();
     let dv = dset.to_vec();
-    match guarded(crate::mon::runaway_budget(x.len()) * 64, move || walk(&xv, kind, &dv)) {
+    let desc = &format!("{}{}", desc, if warm { " (already edited: pointer-free, question memoised)" } else { "" });
+    match guarded(crate::mon::runaway_budget(x.len()) * 64, move || walk(&xv, kind, &dv, warm)) {
         Err(p) => {
             let k = if p.is_budget() { "non-termination" } else { "panic" };
             ctx.violation("C11", format!("walk|{}|{}", k, p.class()), format!("{} delete {:?}: {}", desc, dset, p.msg), x);
